@@ -642,3 +642,77 @@ def check_rmw_tag_discipline(ck, P, rid):
         else:
             ck.inconclusive(rid, inst, node.where, "no path", cfg)
     ck.expect(rid, len(targets), 4, "tag-sensitive operations on history entries")
+
+
+# ---------------------------------------------------------------------------------------------------------------
+# event construction: what ScheduleNewEvent was given is what the message carries
+
+def check_pack(ck, P, rid):
+    """msg_allocator_pack stores its parameters in the fields of their role and copies exactly the declared payload; both
+    ScheduleNewEvent implementations forward their own five parameters position by position."""
+    cfg = P.config
+    f = P.fn("msg_allocator_pack")
+    inst = "pack@msg_allocator_pack"
+    if len(f.params) != 5:
+        ck.inconclusive(rid, inst, f.where, "msg_allocator_pack does not take the five event attributes", cfg)
+        return
+    p = [x["name"] for x in f.params]
+    roles = {"dest": p[0], "dest_t": p[1], "m_type": p[2]}
+    bad = None
+    found = {}
+    for n in f.walk():
+        if n.k == "BinaryOperator" and n.op == "=":
+            t = X.strip(n.children[0])
+            if t.k == "MemberExpr" and t.rec == "lp_msg" and t.name in roles:
+                v = X.strip(n.children[1], casts=False)
+                # an explicit cast that is at least as wide as the field changes nothing; a narrower one truncates
+                while v is not None and v.k == "CStyleCastExpr" and v.d.get("ti") and t.d.get("ti") and v.d["ti"][0] >= t.d["ti"][0]:
+                    v = X.strip(v.children[0], casts=False)
+                found[t.name] = n
+                if not (v.k == "DeclRefExpr" and v.name == roles[t.name]):
+                    if v.k == "CStyleCastExpr":
+                        bad = bad or (n, "`%s` is set from `%s` narrowed to %s by an explicit cast" % (t.name, X.show(v), v.t))
+                    else:
+                        bad = bad or (n, "`%s` is set from `%s`, not from the parameter `%s`" % (t.name, X.show(v), roles[t.name]))
+    for fld in roles:
+        if fld not in found:
+            bad = bad or (f.root, "the field `%s` is never set" % fld)
+    allocs = list(f.calls("msg_allocator_alloc"))
+    if len(allocs) != 1 or X.show(X.strip(X.callee_args(allocs[0])[0], casts=True)) != p[4]:
+        bad = bad or ((allocs[0] if allocs else f.root), "the buffer is not allocated for `%s` bytes of payload" % p[4])
+    cps = [c for c in f.calls() if c.callee in ("memcpy", "__builtin_memcpy", "__builtin___memcpy_chk")]
+    if len(cps) != 1:
+        bad = bad or (f.root, "the payload copy was not recognised")
+    else:
+        d, s, l = [X.strip(a, casts=True) for a in X.callee_args(cps[0])[:3]]
+        if not (d.k == "MemberExpr" and d.name == "pl" and d.rec == "lp_msg"):
+            bad = bad or (cps[0], "the payload is copied to `%s`, not to the message's payload area" % X.show(d))
+        elif not (s.k == "DeclRefExpr" and s.name == p[3]):
+            bad = bad or (cps[0], "the payload is copied from `%s`, not from the parameter `%s`" % (X.show(s), p[3]))
+        elif not (l.k == "DeclRefExpr" and l.name == p[4]):
+            bad = bad or (cps[0], "the payload copy has length `%s`, not `%s`" % (X.show(l), p[4]))
+        else:
+            # the copy may be skipped only when there is nothing to copy
+            for core, B in Q.deciding_branches(f, cps[0], transitive=False):
+                names = {x.name for x in core.walk() if x.k == "DeclRefExpr"}
+                if names - {p[4], "__builtin_expect"}:
+                    bad = bad or (core, "the payload copy depends on `%s`" % X.show(core))
+    if bad:
+        ck.violated(rid, inst, bad[0].where, "msg_allocator_pack: %s — the event delivered is not the event that was scheduled" % bad[1], cfg)
+    else:
+        ck.holds(rid, inst, f.where, "receiver -> dest, timestamp -> dest_t, type -> m_type, %s bytes of %s -> pl" % (p[4], p[3]), cfg)
+    n = 0
+    for c in P.callers("msg_allocator_pack"):
+        g = c.fn
+        if not g.file.startswith("src/") or len(g.params) != 5:
+            continue
+        n += 1
+        inst = "forward@%s" % g.name
+        gp = [x["name"] for x in g.params]
+        args = [X.strip(a, casts=True) for a in X.callee_args(c)]
+        wrong = [(i, X.show(a)) for i, a in enumerate(args) if not (a.k == "DeclRefExpr" and a.name == gp[i])]
+        if wrong:
+            ck.violated(rid, inst, c.where, "%s passes `%s` as the %s of the new event instead of its own parameter `%s`" % (g.name, wrong[0][1], ("receiver", "timestamp", "type", "payload", "payload size")[wrong[0][0]], gp[wrong[0][0]]), cfg)
+        else:
+            ck.holds(rid, inst, c.where, "%s forwards (%s) unchanged" % (g.name, ", ".join(gp)), cfg)
+    ck.expect(rid, n, 2, "ScheduleNewEvent implementations that build an event")
